@@ -24,13 +24,14 @@ from concurrent.futures import ThreadPoolExecutor
 CHECKS = {
     'C20': dict(
         engine='ClientStart',
-        technique='TLA+ spec ClientStart.tla (constructor, frontend thread, server failing at every handshake step, process-kind sentinel path) model-checked with TLC: liveness "constructor returns or raises" under weak fairness, safety Usable/NoLeftover, pre-fix variants rejected; every scenario TLC enumerates is replayed on the real RemoteWorker/ProcessWorker constructors (scripted server cutting the two server-to-client frames at byte offsets with FIN/RST, refused control connect, unknown context id on a real server, real server SIGKILLed at handshake steps through a tap, child exiting before reporting); TLC judges each real execution (ClientStartJudge); leftovers from /proc',
-        text='Exhaustive TLC model checking of the client side of the start-up handshake against a server that fails at every step (26 remote + 2 process scenarios), bound to the code by replaying every enumerated scenario (byte offsets first/middle/last, thorough: every offset) on the real constructors with a 6 s hang bound and judging each execution with the same TLA+ operators.',
+        technique='TLA+ spec ClientStart.tla (constructor, frontend thread, server failing at every handshake step, process-kind sentinel path) model-checked with TLC: liveness "constructor returns or raises" under weak fairness, safety Usable/NoLeftover, pre-fix variants rejected; every scenario TLC enumerates is replayed on the real RemoteWorker/ProcessWorker constructors (scripted server cutting the two server-to-client frames at byte offsets with FIN/RST, refused control connect, unknown context id on a real server, real server SIGKILLed at handshake steps through a tap and inside the start-up window of the backend (slow-starting backend via main_path), child exiting before reporting); TLC judges each real execution (ClientStartJudge); leftovers from /proc',
+        text='Exhaustive TLC model checking of the client side of the start-up handshake against a server that fails at every step (27 remote + 2 process scenarios, incl. a server dying between "backend started" and "go-ahead sent"), bound to the code by replaying every enumerated scenario (byte offsets first/middle/last, thorough: every offset) on the real constructors with a 6 s hang bound and judging each execution with the same TLA+ operators.',
         note='Trusted: TLC; the scripted server reproduces the server side of the protocol up to the fault; a hang is "constructor still blocked after 6 s" (healthy construction takes ~0.1-0.3 s); byte offsets inside a frame are abstracted to none/part/full in the model and enumerated concretely in the replay; a server that stays connected but never answers is outside the property except for the unknown-context case.',
         design_ref='6/C20'),
 }
 
 HANG = 6.0
+WINDOW = 2.0          # how long the slow-starting backend stays between "started" and "reports its identity"
 GRACE = 1.5
 
 
@@ -227,6 +228,44 @@ class Tap(threading.Thread):
             self.log.append('tap-error:%s:%s' % (type(e).__name__, e))
 
 
+SLOW_MAIN = '''import os, time
+if __name__ == '__new_main__':          # re-run inside a remote backend (RemoteWorker._run_backend)
+    d = os.environ.get('LIFE_FLAGDIR')
+    if d:
+        open(os.path.join(d, 'window.%d' % os.getpid()), 'w').close()
+    time.sleep(float(os.environ.get('LIFE_WINDOW', '2')))
+'''
+
+
+class WindowKiller(threading.Thread):
+    """SIGKILLs the real server while its backend sits in the start-up window (flag written by SLOW_MAIN)."""
+
+    def __init__(self, flagdir, srv_pid):
+        super().__init__(daemon=True, name='window-killer')
+        self.flagdir, self.srv_pid = flagdir, srv_pid
+        self.log = []
+
+    def run(self):
+        t0 = time.monotonic()
+        while time.monotonic() - t0 < 15:
+            fl = [f for f in os.listdir(self.flagdir) if f.startswith('window.')]
+            if fl:
+                self.log.append('backend %s in the window' % fl[0].split('.')[1])
+                break
+            time.sleep(0.002)
+        else:
+            self.log.append('tap-error:the backend never reached the start-up window')
+            return
+        try:
+            os.kill(self.srv_pid, signal.SIGKILL)
+        except OSError:
+            pass
+        t0 = time.monotonic()
+        while _pstate(self.srv_pid)[0] not in 'ZXx' and time.monotonic() - t0 < 5:
+            time.sleep(0.002)
+        self.log.append('killed')
+
+
 def _cmd_is_spawn(pid):
     try:
         with open('/proc/%d/cmdline' % pid, 'rb') as f:
@@ -256,6 +295,13 @@ def host_main(case_path, out_path):
         kind, pers, step, how, mode = case['kind'], case['pers'] == 'T', case['step'], case['how'], case['server']
         me, sid = os.getpid(), os.getsid(0)
         script = tap = None
+        flagdir = os.path.join(os.path.dirname(out_path), case['id'] + '.flags')
+        os.makedirs(flagdir, exist_ok=True)
+        os.environ['LIFE_FLAGDIR'] = flagdir          # inherited by the server and its backends
+        os.environ['LIFE_WINDOW'] = str(WINDOW)
+        slow_main = os.path.join(flagdir, 'slow_main.py')
+        with open(slow_main, 'w') as f:
+            f.write(SLOW_MAIN)
         expect_id = None
         if kind == 'remote':
             from pyworkers.remote import RemoteWorker
@@ -278,7 +324,14 @@ def host_main(case_path, out_path):
                 if not srv.is_alive():
                     raise RuntimeError('could not start a real server: %r' % (srv.error,))
                 host = srv.addr
-                if step.startswith('kill_'):
+                if step == 'kill_window':
+                    # the server dies between "backend started" and "go-ahead sent": the backend is given a main script that
+                    # marks a flag and sleeps when re-run as __new_main__ (remote.py: main_path), i.e. after it has started its
+                    # control thread and before it reports its identity; the server is SIGKILLed as soon as the flag appears
+                    kw['main_path'] = slow_main
+                    tap = WindowKiller(flagdir, srv.pid)
+                    tap.start()
+                elif step.startswith('kill_'):
                     tap = Tap(srv.addr, srv.pid, step)
                     tap.start()
                     host = tap.addr
@@ -498,7 +551,12 @@ def run(prop, tier, replay=None):
             raise MachineryError('pre-fix variant %s is not rejected by liveness: %r' % (fx, rw.error))
         wit[nm] = rw.error
         ev.add_tlc('pre-fix variant %s (must be rejected)' % fx, rw, role='vacuity')
-    for w in ('W_Returned', 'W_Raised', 'W_FDead', 'W_Orphan'):
+    rw = tlc.run('ClientStartMC', cfg_text=_mc_cfg(LateClose='TRUE'), name='whatif_lateclose', must_complete=False, workers=2)
+    if rw.error != 'temporal':
+        raise MachineryError('what-if LateClose (backend keeps its copy of the server\'s pipe end until the go-ahead) is not rejected: %r' % rw.error)
+    wit['whatif_lateclose'] = rw.error
+    ev.add_tlc('what-if: backend closes its copy of the server\'s pipe end only after the go-ahead (must be rejected)', rw, role='vacuity')
+    for w in ('W_Returned', 'W_Raised', 'W_FDead', 'W_Orphan', 'W_WindowEOF'):
         rw = tlc.run('ClientStartMC', cfg_text=_mc_cfg().replace('PROPERTY Live_Returns', 'INVARIANT ' + w), name=w, must_complete=False, workers=2)
         if rw.error != 'invariant:' + w:
             raise MachineryError('witness %s not reachable: %r' % (w, rw.error))
